@@ -16,7 +16,7 @@ RULE = ("well-formed PELs with UD / ED / hexdump-only / unknown-id sections: BMC
 ASSUMPTIONS = ["invalid JSON / invalid UTF-8 in the built-in formats is outside the statement",
                "JSON user data keys never collide with the three section header keys",
                "fixture plugins (vf/fixtures/plugins) stand for 'another distribution installed more parser modules'"]
-FLAVORS = ["bmc_json", "bmc_text", "bmc_other", "noparser", "fx_ok", "fx_raise", "fx_none", "fx_importerror", "fx_list",
+FLAVORS = ["bmc_json", "bmc_text", "bmc_other", "bmc_badjson", "noparser", "fx_ok", "fx_raise", "fx_none", "fx_importerror", "fx_list",
            "fx_hostile", "fx_keyerror", "fx_badimport", "fx_brokenimport", "fx_release_raise", "fx_release_none",
            "fx_release_ok", "fx_raise_empty", "fx_raise_multiline"]
 
